@@ -332,6 +332,10 @@ class Executor(ExprMixin, StmtMixin, Engine):
         if name == 'format':
             return self.format_value(st, s, pos, kw, node)
         if name == 'splitlines':
+            if 'splitlines_keepends' in self.m.ufuncs and kw.get('keepends') is not None:
+                r = self.call_ufunc('splitlines_keepends', [s])
+                st.assume(list_len(r) >= 0)
+                return r
             r = fresh(TList(STR), 'lines')
             st.assume(list_len(r) >= 0)
             return r
